@@ -101,10 +101,10 @@ type pkgInfo struct {
 	fset        *token.FileSet
 	files       map[string]*ast.File
 	name        string
-	mutexField  map[string]bool   // field name -> is RW, for fields of type sync.(RW)Mutex
-	mutexStruct map[string]bool   // struct type name -> is RW, for structs embedding sync.(RW)Mutex
-	structField map[string]string // field name -> struct type name (for fields of type T or *T, T in mutexStruct)
-	mutexVar    map[string]bool   // package-level var of type sync.(RW)Mutex -> is RW
+	mutexField  map[string]bool     // field name -> is RW, for fields of type sync.(RW)Mutex
+	mutexStruct map[string]bool     // struct type name -> is RW, for structs embedding sync.(RW)Mutex
+	structField map[string]string   // field name -> struct type name (for fields of type T or *T, T in mutexStruct)
+	mutexVar    map[string]bool     // package-level var of type sync.(RW)Mutex -> is RW
 	pkgVars     map[string]ast.Expr // package-level var -> declared type
 	structs     map[string]*ast.StructType
 }
@@ -853,7 +853,7 @@ func rewriteKnobs(cp *pkgInfo, dir, repo string) {
 		}
 	}
 	// every use in the repository must be one of the known integer contexts
-	okUse := regexp.MustCompile(`(>= tc\.MAX_CAPACITY\b|make\(chan struct\{\}, tc\.MAX_LIMITATION\)|< tc\.MAX_LIMITATION\b)`)
+	okUse := regexp.MustCompile(`((>=|<=|==|!=|>|<) tc\.MAX_(CAPACITY|LIMITATION)\b|make\(chan struct\{\}, tc\.MAX_LIMITATION\))`)
 	anyUse := regexp.MustCompile(`\bMAX_(CAPACITY|LIMITATION)\b`)
 	bad := false
 	filepath.Walk(repo, func(path string, info os.FileInfo, err error) error {
